@@ -126,3 +126,8 @@ def correspondence(rng, tier):
     import modcorr
     modcorr.add_to(r, modcorr.mod_correspondence(rng, tier, 'C06m'), 'mod_fmod', 'x % y and fmod(x, y) of uncertain reals of every structural kind (elementary, dependent, sum, scaled, declared intermediate, constant, mixed) against the model Special.v umod/ufmod (value and the three component vectors bit for bit)')
     return r
+
+def kf_C06_result_real_plus_complex_literal():
+    """fixed finding C06-result-real-plus-complex-literal (regression check shared with the complex kernel, harness/ckf.py)"""
+    import ckf
+    return ckf.kf_C06_result_real_plus_complex_literal()
